@@ -1,7 +1,7 @@
 (* Extract.v — extraction of the executable model to OCaml.  ExtrOcamlBasic only
    (bool, option, unit, prod, list, sumbool -> OCaml's); N, positive, nat, Z stay the
    extracted inductives.  No Extract Constant. *)
-From Zvt Require Import Base Length.
+From Zvt Require Import Base Length Cp437 Encoding.
 From Coq Require Import ExtrOcamlBasic.
 Extraction Language OCaml.
-Extraction "model.ml" len_ser len_de.
+Extraction "model.ml" len_ser len_de prim_enc prim_dec tag_enc tag_dec framed_dec framed_enc.
